@@ -35,12 +35,17 @@ func newBase(rule rule) Base {
 	case strings.Contains(comment, "file_inherit"):
 		fileInherit = true
 		comment = strings.Replace(comment, "file_inherit ", "", 1)
+		comment = strings.TrimSuffix(comment, " file_inherit") // The marker alone, as it is printed
+	case strings.HasPrefix(comment, " no new privs"): // As it is printed
+		noNewPrivs = true
+		comment = strings.Replace(comment, " no new privs", "", 1)
 	case strings.HasPrefix(comment, "no new privs"):
 		noNewPrivs = true
 		comment = strings.Replace(comment, "no new privs ", "", 1)
 	case strings.Contains(comment, "optional:"):
 		optional = true
 		comment = strings.Replace(comment, "optional: ", "", 1)
+		comment = strings.TrimSuffix(comment, " optional:") // The marker alone, as it is printed
 	}
 	return Base{
 		Comment:     comment,
